@@ -1357,6 +1357,39 @@ func genCliOrcptSpace(rng *rand.Rand, thorough bool, emit func(*Sx)) {
 	}
 }
 
+// genCliAuthThenReEhlo: the client has authenticated; after Reset it says EHLO again and the server's reply
+// differs (AUTH / DSN / SIZE come and go): what Mail and Rcpt may send follows the LATEST reply only.
+func genCliAuthThenReEhlo(rng *rand.Rand, thorough bool, emit func(*Sx)) {
+	a := "ident@example.org"
+	ehlos := []string{"250-srv\r\n250-AUTH PLAIN\r\n250-DSN\r\n250 SIZE 1000\r\n", "250-srv\r\n250-DSN\r\n250 SIZE 1000\r\n",
+		"250-srv\r\n250 AUTH PLAIN\r\n", "250 srv\r\n", "250-srv\r\n250-8BITMIME\r\n250 SMTPUTF8\r\n"}
+	for i, e1 := range ehlos[:3] {
+		for j, e2 := range ehlos {
+			for _, authed := range []bool{true, false} {
+				if !strings.Contains(e1, "AUTH") && authed {
+					continue
+				}
+				stream := "220 ready\r\n" + e1
+				var calls []cliCall
+				calls = append(calls, cliCall{kind: "hello", s: "me.example"})
+				if authed {
+					stream += "235 2.7.0 ok\r\n"
+					calls = append(calls, cliCall{kind: "auth", auth: &saslScript{mech: "PLAIN", ir: []byte("\x00u\x00p")}})
+				}
+				stream += "250 2.0.0 reset\r\n" + e2 + "250 2.1.0 sender ok\r\n250 2.1.5 rcpt ok\r\n221 bye\r\n"
+				calls = append(calls, cliCall{kind: "reset"},
+					cliCall{kind: "mail", s: "s@example.org", mopts: &smtp.MailOptions{Auth: &a, EnvelopeID: "e", Return: smtp.DSNReturnFull, Size: 5}},
+					cliCall{kind: "rcpt", s: "t@example.org", ropts: &smtp.RcptOptions{Notify: []smtp.DSNNotify{smtp.DSNNotifyNever}}}, cliCall{kind: "quit"})
+				cs := cliCase{stream: []byte(stream), focus: "auth-then-reehlo", calls: calls}
+				if (i+j)%2 == 0 {
+					cs.cuts = randCuts(rng, cs.stream)
+				}
+				emit(runCli(cs))
+			}
+		}
+	}
+}
+
 func GenCli(rng *rand.Rand, thorough bool, emit func(*Sx)) {
 	genCliC15(rng, thorough, emit)
 	genCliBody(rng, thorough, emit)
@@ -1370,4 +1403,5 @@ func GenCli(rng *rand.Rand, thorough bool, emit func(*Sx)) {
 	genCliBroken(rng, thorough, emit)
 	genCliRandom(rng, thorough, emit)
 	genCliOrcptSpace(rng, thorough, emit)
+	genCliAuthThenReEhlo(rng, thorough, emit)
 }
